@@ -9,7 +9,7 @@ from ..model import AnalysisError, Cls, Func, Program, walk_own
 from ..orderings import NotAFormula, eval_order, weak_orderings
 from ..report import Report
 from ..resolve import const_value, dotted
-from ..util import calls_in, is_manager_expr, manager_fields, returns_of, src
+from ..util import before, calls_in, is_manager_expr, manager_fields, returns_of, src
 from .poolfam import PoolFacts, queue_call
 
 
@@ -91,7 +91,7 @@ def r1_r2_begin_end(prog, rep: Report, pf: PoolFacts, wrun: Func):
             ok, why = False, "begin() is called inside a loop: it runs once per item"
         elif any(isinstance(a, ast.If) for a in _ancestors(b)):
             ok, why = False, "begin() is called conditionally"
-        elif any(g.lineno < b.lineno for g in gets):
+        elif any(before(wrun.node, g, b) for g in gets):
             ok, why = False, "a work-queue get precedes begin()"
     rep.check("C04.R2", wrun, "begin", ok, "single begin() outside loops, before every work-queue get", why,
               scenario="the first chunk is processed before begin() completed (or begin() runs again for every chunk)")
